@@ -59,4 +59,16 @@ let dispatch (f : string array) : string option =
   | "vfs_config_dir_m" | "vfs_config_dir_s" ->
       let files = if Array.length f > 3 && f.(3) <> "" then List.map arg_str (String.split_on_char ',' f.(3)) else [] in
       Some (out_opt_str (api_vfs_config_dir (parse_env f.(1)) (a 2) files))
+  | "sym_mode" ->
+      (* sym_mode <kind f|d|lf|ld> <mode> <octal> <sym> *)
+      let kd = f.(1) in
+      let dir = (kd = "d" || kd = "ld") and file = (kd = "f" || kd = "lf") and link = (kd = "lf" || kd = "ld") in
+      let nn i = n_of_int (int_of_string f.(i)) in
+      Some (match api_sym_mode dir file link (nn 2) (nn 3) (a 4) with
+            | Inl m -> "N:" ^ string_of_int (int_of_n m)
+            | Inr EChmod -> "E:VfsInvalidChmod" | Inr EChmodTarget -> "E:VfsInvalidChmodTarget"
+            | Inr EChmodGroup -> "E:VfsInvalidChmodGroup" | Inr EChmodOp -> "E:VfsInvalidChmodOp"
+            | Inr EChmodPerms -> "E:VfsInvalidChmodPermissions")
+  | "revoking_mode" ->
+      Some (out_bool (api_revoking_mode (n_of_int (int_of_string f.(1))) (n_of_int (int_of_string f.(2)))))
   | _ -> None
